@@ -26,7 +26,7 @@ THEOREMS = [f'Gnpy.Spectrum.{t}' for t in (
     'addAse_gsnr_le', 'addNli_snr_eq', 'addNli_nsrNli', 'addNli_nsrNli_ge', 'addNli_snrNli_le', 'addNli_nsr_ge',
     'addNli_gsnr_le', 'step_monotone', 'run_monotone', 'run_figures_antitone', 'path_append', 'pathOk_append', 'path_live',
     'path_monotone', 'roadm_unchanged', 'fused_unchanged', 'trx_unchanged', 'passive_elements_figures', 'edfa_only_osnr',
-    'fiber_only_nli', 'raman_monotone', 'multiband_only_osnr')]
+    'fiber_only_nli', 'raman_monotone', 'multiband_only_osnr', 'applyElems_monotone')]
 RULE = ('cases from one PRNG: (a) "path": request.propagate on a designed network (shipped examples edfa, mesh, fused, '
         'multiband, raman[, openroadm in thorough]; generated ROADM chains with 1-3 spans per hop, fused splices, connector '
         'and padding losses, in/out VOAs, tilt, every stock amplifier variety incl. dual-stage and OpenROADM, Raman fibres; '
@@ -198,8 +198,9 @@ def run_path(case, drv):
                         el = path[i]
                         if isinstance(el, E.Roadm):
                             si = el(si, degree=path[i + 1].uid, from_degree=path[i - 1].uid)
-                        elif isinstance(el, E.Fiber) and float(np.max(si.pch)) > 10e-3:
-                            res.stats['shuffle_fibre_skipped_above_10dBm'] += 1
+                        elif not isinstance(el, E.Fused) and float(np.max(si.pch)) > 10e-3:
+                            # beyond +10 dBm per channel (piled-up amplifiers) the property does not apply
+                            res.stats['shuffle_element_skipped_above_10dBm'] += 1
                         else:
                             si = el(si)
                     si = path[-1](si)
